@@ -29,7 +29,15 @@ pub fn gen(r: &mut Rng) -> Value {
             }
             json!({"kind": "calc", "terms": terms})
         }
-        2 => if r.chance(1, 3) { let base = if r.chance(1, 2) { 2 } else { 10 }; json!({"kind": "pow", "base": base, "exp": 15 + r.below(60)}) } else { json!({"kind": "range", "a": r.below(7) as i64 - 2, "b": r.below(9) as i64 - 2}) },
+        2 => if r.chance(1, 3) { let base = if r.chance(1, 2) { 2 } else { 10 }; json!({"kind": "pow", "base": base, "exp": 15 + r.below(60)}) } else { if r.chance(1, 2) { json!({"kind": "range", "a": r.below(7) as i64 - 2, "b": r.below(9) as i64 - 2}) } else {
+                // bounds as written text: big integers (beyond 2^53, near the i64 limits), signs, and texts that are no integers
+                let base: i64 = *r.pick(&[0i64, 9007199254740992, -9007199254740992, i64::MAX - 4, i64::MIN + 1, 1000000007]);
+                let a = base.saturating_add(r.below(4) as i64);
+                let b = base.saturating_add(r.below(5) as i64);
+                let odd = ["1.5", "2.0", "1e3", "", "abc", " 2", "0x10", "NaN", "inf", "1_000", "٣"];
+                let (ta, tb) = match r.below(6) { 0 => (r.pick(&odd).to_string(), b.to_string()), 1 => (a.to_string(), r.pick(&odd).to_string()), 2 => (format!("+{}", a.max(0)), b.max(0).to_string()), _ => (a.to_string(), b.to_string()) };
+                json!({"kind": "range_text", "a": ta, "b": tb})
+            } },
         3 => {
             let (n, m) = (r.below(5), 1 + r.below(2));
             json!({"kind": "split", "text": mk(r, n), "sep": mk(r, m)})
@@ -104,6 +112,29 @@ pub fn run(input: &Value) -> Option<Value> {
                 return Some(json!({"script": script, "what": "calc differs from ordinary arithmetic", "model": want, "real": got}));
             }
             None
+        }
+        "range_text" => {
+            let (ta, tb) = (input["a"].as_str()?, input["b"].as_str()?);
+            let script = format!("h = range \"{}\" \"{}\"\nn = array_length ${{h}}\nj = array_join ${{h}} ,", ta, tb);
+            let ctx = match run_script(&script) { Ok(c) => c, Err(e) => return Some(json!({"script": script, "error": e})) };
+            let get = |k: &str| ctx.variables.get(k).cloned();
+            match (ta.parse::<i64>(), tb.parse::<i64>()) {
+                (Ok(a), Ok(b)) if a <= b && b - a <= 16 => {
+                    let items: Vec<String> = (a..b).map(|x| x.to_string()).collect();
+                    if get("n") != Some(items.len().to_string()) || (items.len() > 0 && get("j") != Some(items.join(","))) {
+                        return Some(json!({"script": script, "what": "range is not the half-open integer interval", "model": items, "real": {"n": get("n"), "joined": get("j")}}));
+                    }
+                    None
+                }
+                (Ok(a), Ok(b)) if a <= b => None,
+                _ => {
+                    // a bound that is no integer, or start > end: the error result, not a value
+                    if get("h") != Some("false".to_string()) {
+                        return Some(json!({"script": script, "what": "range with a bound that is no integer (or start > end) must report an error", "real": get("h")}));
+                    }
+                    None
+                }
+            }
         }
         "range" => {
             let (a, b) = (input["a"].as_i64()?, input["b"].as_i64()?);
